@@ -926,6 +926,13 @@ func (e *Enc) encodeBlockEntry(b *ssa.BasicBlock) {
 				pre := preSt2(preSt, r, name)
 				var excl []string
 				for _, vn := range li.spec.FrameExcept {
+					for _, p := range e.fn.Params {
+						if p.Name() == vn {
+							if pt, ok := types.Unalias(p.Type()).Underlying().(*types.Pointer); ok && heapName(pt.Elem()) == name {
+								excl = append(excl, fmt.Sprintf("(not (= r!f %s))", e.val(p)))
+							}
+						}
+					}
 					for _, bb := range e.fn.Blocks {
 						for _, ins := range bb.Instrs {
 							if a, ok := ins.(*ssa.Alloc); ok && a.Comment == vn {
